@@ -159,3 +159,30 @@ CHECKS["C12"] = {
             "invariant to weight rescaling.",
     "note": _NOTE,
 }
+
+CHECKS["C10"] = {
+    "design_ref": "DESIGN.md section 5 C10",
+    "technique": "runtime differential monitor of validate_chord_label / split / "
+                 "join / encode / encode_many against a recursive-descent "
+                 "recogniser and interval-set encoder; exhaustive bounded grammar + "
+                 "mutation fuzzing",
+    "text": "For every string executed: only InvalidChordException was raised, "
+            "acceptance coincided with the documented grammar, every accepted "
+            "encodable label had a sound encoding equal to the reference encoder "
+            "under all four flag combinations, join(*split) round-tripped, N/X "
+            "mapped to their sentinels. The bounded grammar slice is enumerated "
+            "completely; beyond it, seeded mutations and random strings.",
+    "note": _NOTE,
+}
+CHECKS["C11"] = {
+    "design_ref": "DESIGN.md section 5 C11",
+    "technique": "runtime post-conditions on the 12 comparison functions + "
+                 "vocabulary oracle; exhaustive ordered pairs of a fixed label "
+                 "universe for the implication lattice",
+    "text": "All ordered pairs of the fixed label universe were executed through "
+            "all 12 rules: values in {1,0,-1}, -1 exactly where the reference is "
+            "outside the documented vocabulary, no f(l,l)=0, all documented "
+            "implications hold; internal calls from chord.evaluate are checked by "
+            "the same post-conditions.",
+    "note": _NOTE,
+}
